@@ -146,6 +146,25 @@ def c06(ctx):
         "private objects) and decrypt to the API value; no IV is reused for different values, the master key and the "
         "values held only by private objects occur nowhere in clear, no path has a mode bit outside objectstore.umask.")
     ctx.assumptions += ["entries nested in CKA_WRAP_TEMPLATE are policy data stored as given (exempt by the property)"]
+    # "ever": also when the user is logged out by another thread while the key material of a private token key is on its way
+    # to the store (the encryption then fails): ConcTok's final state carries a scan of the token directory for the
+    # value in clear (the other effects of that race are the subject of C18 and its known finding)
+    if not ctx.violations:
+        import random
+        from checks import conc
+        lib = build.libpath(build.build("ossl"))
+        tot = conc.new_tot()
+        tcs = dict(Threads=conc.THREADS, PinSyms='{"P0", "P1", "P2", "PX"}', InitPin='"P0"', Dev='{"LogoutSplit"}')
+        for combo in ([("Lu,Ll", 2, 2500, False, True)] if quick else
+                      [("Lu,Ll", 2, 20000, False, True), ("Lu,Lo", 2, 20000, False, True), ("Lu,Lc", 2, 20000, False, True)]):
+            if not ctx.violations:
+                conc.run_combo(ctx, lib, combo, None, tcs, random.Random(ctx.seed), tot, tagp="c06-")
+        ctx.coverage["logout_during_unwrap"] = dict(
+            schedules=tot["schedules"], executions=tot["executions"], accepted=tot["accepted"],
+            rule="a thread unwraps a key into a private token object while another thread logs the user out (scheduler at the "
+                 "mutex callbacks, all two-preemption schedules); after each execution the token directory is scanned for "
+                 "the key value in clear")
+        ctx.coverage["traces_validated_against_impl"] += tot["accepted"]
 
 
 # ---------------------------------------------------------------------------------------------------------------
